@@ -157,6 +157,14 @@ def run(chk):
         add(b'B', body, rng.choice(ctypes), rng.choice([4, 16, 100, 100 * 1024]),
             rng.choice(['json', 'forms', 'post', 'params', 'body', 'files', 'json+forms', 'forms+json']), 'raw', 'raw', chunked,
             rng.random() if (chunked and rng.random() < 0.35) else None, rng.random() < 0.25)
+    # chunked framing whose size line announces an absurd number of bytes (up to and beyond what a machine word holds):
+    # a malformed body like any other
+    for size in ('7fffffffffffffff', '8000000000000000', 'ffffffffffffffffffffffff', '4000000000000000', '1000000000000', '0000000000000000000000fffffffffffffffffff'):
+        for tail in (b'hello\r\n0\r\n\r\n', b'', b'x' * 300):
+            for wh in ('body', 'forms', 'json', 'forms+files'):
+                add(b'B', b'', rng.choice(['text/plain', 'application/json', 'application/x-www-form-urlencoded', 'multipart/form-data; boundary=B']),
+                    rng.choice([64, 1000, 100 * 1024]), wh, 'absurd-chunk-size ' + size, 'raw', chunked=False, in_thread=rng.random() < 0.3)
+                specs[-1]['raw_wire'] = (size.encode() + b'\r\n' + tail).hex()
     results = fl.post_batch(specs, time_limit=5.0)
     for sp, m, res in zip(specs, metas, results):
         t = fl.to_trace(m['body'], m['buf'], m['kind'], None, res, full=m['full_ok'] and m['kind'] == 'mutated' and res.get('one_piece', False))
